@@ -124,7 +124,7 @@ where
             final(self).consumed == old(self).consumed, // id: frame [C02]
             final(self).remaining == old(self).remaining,
             final(self).reached_eof == old(self).reached_eof,
-            final(self).buffer@.len() <= 128, // id: size_line_capped_128 [C05]
+            final(self).buffer@.len() <= CHUNK_LINE_MAX, // id: size_line_capped [C05]
             is_suffix(wire(&final(self).inner), wire(&old(self).inner)), // id: wire_only_advances [C02]
             old(self).ff() ==> final(self).ff(), // id: fault_free_kept [C02]
             res matches Ok(n) ==> size_line(wire(&old(self).inner)) matches Some((m, k)) && m == n // id: size_is_spec_of_line [C01,C02,C19]
